@@ -1007,7 +1007,21 @@ const KEY_BYTES: std::ops::RangeFrom<usize> = 64..;
 
 /// The identifier of a record.
 #[derive(Clone, Serialize, Deserialize, PartialEq, Eq, PartialOrd, Ord)]
+#[serde(try_from = "Bytes")]
 pub struct RecordIdentifier(Bytes);
+
+/// Identifiers received from a peer must at least hold the namespace and the author;
+/// the accessors slice those parts out and would panic on a shorter value.
+impl TryFrom<Bytes> for RecordIdentifier {
+    type Error = &'static str;
+
+    fn try_from(bytes: Bytes) -> Result<Self, Self::Error> {
+        if bytes.len() < AUTHOR_BYTES.end {
+            return Err("record identifier is shorter than namespace and author");
+        }
+        Ok(Self(bytes))
+    }
+}
 
 impl Default for RecordIdentifier {
     fn default() -> Self {
